@@ -136,7 +136,7 @@ class FakePipeEnd(object):
         self.reading = inbuf is not None
         self._inbuf = b""
         if inbuf is not None:
-            inbuf = bytes(inbuf)[:60000]
+            inbuf = bytes(inbuf)[:4000]
             os.write(self.w, inbuf)
             os.close(self.w)
             self.w = None
@@ -185,3 +185,70 @@ def pipestreams(rng):
     data = bytes(range(256)) * 100
     return [lambda: PipeStream(FakePipeEnd(data), FakePipeEnd()), lambda: PipeStream(FakePipeEnd(b"abc"), FakePipeEnd()),
             lambda: PipeStream(FakePipeEnd(b""), FakePipeEnd())]
+
+
+def cleanup(v):
+    """release OS resources held by a harness object after a case"""
+    for name in ("incoming", "outgoing"):
+        end = getattr(v, name, None) if type(v).__name__ == "PipeStream" else None
+        if isinstance(end, FakePipeEnd):
+            end.close()
+
+
+# ---------------------------------------------------------------------------------------------
+# attribute policy (C06): real Connection objects with every switch setting, objects of every shape
+# ---------------------------------------------------------------------------------------------
+class _Shape(object):
+    pass
+
+
+def policy_objects():
+    names = ["foo", "_priv", "__dunder__", "exposed_foo", "__add__", "x"]
+    objs = []
+    for has_name in (False, True):
+        for has_twin in (False, True):
+            for prefix in ("exposed_", "pub_"):
+                o = _Shape()
+                for n in names:
+                    if has_name:
+                        setattr(o, n, "plain:" + n)
+                    if has_twin:
+                        setattr(o, prefix + n, "twin:" + n)
+                objs.append(o)
+    return objs
+
+
+def policy_connections(rng):
+    import itertools
+    from rpyc.core.protocol import Connection
+    from rpyc.core.service import VoidService
+    keys = ["allow_all_attrs", "allow_exposed_attrs", "allow_safe_attrs", "allow_public_attrs", "allow_getattr",
+            "allow_setattr", "allow_delattr"]
+    facs = []
+    for bits in itertools.product((False, True), repeat=7):
+        for prefix in ("exposed_", "", "pub_"):
+            cfg = dict(zip(keys, bits), exposed_prefix=prefix)
+            facs.append(lambda cfg=cfg: _mkconn(cfg))
+    rng.shuffle(facs)
+    return facs
+
+
+def _mkconn(cfg):
+    from rpyc.core.protocol import Connection
+    from rpyc.core.service import VoidService
+    c = Connection(VoidService(), None, cfg)
+    c._closed = True           # no channel: keep __del__/close from touching it
+    return c
+
+
+def candidates_for(target, pname, sort, rng):
+    if target.endswith("Connection._check_attr"):
+        if pname == "self":
+            return policy_connections(rng)
+        if pname == "obj":
+            return policy_objects()
+        if pname == "name":
+            return ["foo", "_priv", "__dunder__", "exposed_foo", "__add__", "x", "", "missing"]
+        if pname == "perm":
+            return ["allow_getattr", "allow_setattr", "allow_delattr"]
+    return None
